@@ -52,6 +52,11 @@ Section NoDupB.
     destruct (existsb (fun x0 => eqb (g x0) k') xs), (eqb (g x) k'), (c k'); reflexivity.
   Qed.
 
+  Lemma fold_put_get_id (c : K -> bool) (f : K -> list elem) ks m0 k' :
+    aget eqb (fold_left (fun acc k => if c k then aput k (f k) acc else acc) ks m0) k'
+    = if existsb (fun k => eqb k k') ks && c k' then f k' else aget eqb m0 k'.
+  Proof. exact (fold_put_get (fun x => x) c f ks m0 k'). Qed.
+
   Lemma akeys_In k (m : amap K) : In k (akeys eqb m) <-> In k (map fst m).
   Proof. apply nodupb_In. Qed.
   Lemma aget_nokey k (m : amap K) : ~ In k (map fst m) -> aget eqb m k = [].
